@@ -157,12 +157,13 @@ class ApiTranslator(FuncTranslator):
                 if exc.args:
                     m = exc.args[0]
                     if isinstance(m, ast.Constant) and isinstance(m.value, str):
-                        lead = m.value
+                        lead, msg = m.value, '(XConst PNone)'     # the whole message is the leading text
                     elif isinstance(m, ast.JoinedStr):
                         lead = m.values[0].value if m.values and isinstance(m.values[0], ast.Constant) else ''
                     else:
                         lead = ''
-                    msg = self.expr(m)
+                    if not (isinstance(m, ast.Constant) and isinstance(m.value, str)):
+                        msg = self.expr(m)
                 else:
                     lead, msg = '', '(XConst PNone)'
                 return f'(SExpr (XPrim "raise" [{self.strconst(cls)}; {self.strconst(lead)}; {msg}]))'
@@ -219,8 +220,6 @@ def spec_shell():
         ('shell_parseline', D.parseline, 'beanquery.shell.DispatchingShell.parseline'),
         ('shell_onecmd', D.onecmd, 'beanquery.shell.DispatchingShell.onecmd'),
         ('settings_parse_bool', S._parse_bool, 'beanquery.shell.Settings._parse_bool'),
-        ('settings_parse_format', S._parse_format, 'beanquery.shell.Settings._parse_format'),
-        ('settings_getstr', S.getstr, 'beanquery.shell.Settings.getstr'),
     ]
 
 
